@@ -66,11 +66,12 @@ Step ==
   \/ E.ev \in {"dims", "tile", "coords"} /\ pc = "done" /\ UNCHANGED <<vars, cands>>   \* refused before: not consumed
   \/ E.ev = "lock"    /\ LockSet(cands) /\ UNCHANGED cands
   \/ E.ev = "store"   /\ StoreSet(cands) /\ UNCHANGED cands
-  \/ E.ev = "done"    /\ pc = "done"
-                      /\ E.out = ObsClass
-                      /\ \A t \in Range(E.touches) : Predicted(t)
-                      /\ (\E u \in Range(E.touches) : ~ObservedSafe(u)) => TLCSet(3, TLCGet(3) \cup {tid})
-                      /\ UNCHANGED <<vars, cands>>
+  \/ /\ E.ev = "done"
+     /\ pc = "done"
+     /\ E.out = ObsClass
+     /\ \A t \in Range(E.touches) : Predicted(t)
+     /\ IF \E u \in Range(E.touches) : ~ObservedSafe(u) THEN TLCSet(3, TLCGet(3) \cup {tid}) ELSE TRUE
+     /\ UNCHANGED <<vars, cands>>
 
 TraceNext ==
   /\ l <= Len(Tr)
